@@ -64,7 +64,8 @@ pub fn honest(seed: u64) -> Arc<Honest> {
     }
     let m = proto::merchant(seed % 2);
     let cid = proto::channel_id(&m, seed);
-    let input = ctx_input(seed, (seed % 60) as usize + 4);
+    // mostly short contexts, every fifth one longer than a SHA3-256 block (136 bytes)
+    let input = ctx_input(seed, if seed % 5 == 4 { 140 + (seed % 90) as usize } else { (seed % 60) as usize + 4 });
     let ctx = Context::new(&input);
     let (cb, mb) = (100 + seed % 900, 50 + (seed >> 4) % 500);
     let amt = (seed % 9) as i64 - 4;
@@ -235,7 +236,8 @@ fn oracle(c: &Case, rec: &Rec) -> R {
             if (*pos as usize) < len {
                 input2[*pos as usize] ^= 1 << (c.seed % 8);
             } else {
-                input2.push((c.seed >> 8) as u8);
+                // one byte appended: 0x00 for even seeds (padding-like), arbitrary otherwise
+                input2.push(if c.seed % 2 == 0 { 0 } else { (c.seed >> 8) as u8 });
             }
             let ctx1 = Context::new(&input2);
             ensure!(ctx0.as_bytes() != ctx1.as_bytes(), "C12/context-digest-ignores-byte", "Context::new gives the same digest after changing byte {} of a {}-byte input", pos, len);
@@ -287,6 +289,8 @@ fn gen(ctx: &Ctx) -> Vec<Case> {
         for pos in 0..=*len {
             out.push(Case { seed: base + (k as u64 % est_seeds), kind: ZKind::CtxByte { len: *len, pos, pay: false } });
         }
+        // the append case with both an arbitrary and a zero byte (seed parity selects)
+        out.push(Case { seed: base + (k as u64 % est_seeds) + 1, kind: ZKind::CtxByte { len: *len, pos: *len, pay: false } });
     }
     for pos in [0u8, 15, 31, 32] {
         out.push(Case { seed: base, kind: ZKind::CtxByte { len: 32, pos, pay: true } });
